@@ -278,16 +278,17 @@ String Xml::Private::escapeString(const String& str)
   for(const char* i = str, * end = i + str.length(); i < end; ++i)
   {
     c = *i;
-    if((c & 0xc0) || (c & 0xe0) == 0) // c >= 64 || c < 32
+    if(((c & 0xc0) || (c & 0xe0) == 0) && c != '\r' && c != '\n') // c >= 64 || c < 32
     {
       *(dest++) = c;
       continue;
     }
     
+    static const String lineBreakStrings[2] = {String("#13"), String("#10")}; // raw line breaks are not allowed in attribute values
     const char* escapeChar = String::find(escapeChars, c);
-    if(escapeChar)
+    if(escapeChar || c == '\r' || c == '\n')
     {
-      const String& escapeString = escapeStrings[escapeChar - escapeChars];
+      const String& escapeString = escapeChar ? escapeStrings[escapeChar - escapeChars] : lineBreakStrings[c == '\n'];
       result.resize(dest - destStart);
       result.reserve(result.length() + escapeString.length() + 1 + (end - i));
       destStart = result;
